@@ -807,6 +807,9 @@ pub trait ReadableTable<K: Key + 'static, V: Value + 'static>: ReadableTableMeta
 pub struct ReadOnlyUntypedTable {
     name: String,
     tree: RawBtree,
+    // Keeps the read transaction registered for as long as this handle is alive, like the typed
+    // tables do: stats() walks pages of the transaction's snapshot
+    _transaction_guard: Arc<TransactionGuard>,
 }
 
 impl Sealed for ReadOnlyUntypedTable {}
@@ -845,10 +848,12 @@ impl ReadOnlyUntypedTable {
         fixed_key_size: Option<usize>,
         fixed_value_size: Option<usize>,
         mem: PageResolver,
+        guard: Arc<TransactionGuard>,
     ) -> Self {
         Self {
             name: name.to_string(),
             tree: RawBtree::new(root_page, fixed_key_size, fixed_value_size, mem, hint),
+            _transaction_guard: guard,
         }
     }
 }
